@@ -217,8 +217,21 @@ func ext4PrefixScenarios(cfg fatCfg, oracle string, depth int) []*fatScen {
 	return out
 }
 
+// ext4GroupSpanScenario: a small multi-group volume (256 blocks per group) on which one file covers the blocks around
+// several group boundaries, so that whatever is written to a wrong block near a boundary (a misplaced backup of the
+// superblock or of the group descriptors, a bitmap of the neighbouring group) lands in file data; then a later session
+// (re-open) changes the volume.
+func ext4GroupSpanScenario(oracle string, depth int) *fatScen {
+	W := func(p, off, ln string) fsOp { return fsOp{Kind: "write", Path: p, Off: off, Len: ln} }
+	cfg := fatCfg{Type: 4, Size: 2 << 20, Start: 4096, E4SectorsPerBlock: 2, E4Feat: "bpg=256"}
+	pre := []fsOp{W("span.bin", "0", "900c"), {Kind: "mkdir", Path: "d"}}
+	l := []fsOp{{Kind: "reopen"}, W("x.bin", "0", "c+1"), {Kind: "mkdir", Path: "d/e"}, {Kind: "remove", Path: "x.bin"}, {Kind: "append", Path: "span.bin", Len: "c"}, {Kind: "symlink", Path: "l", Path2: strings.Repeat("t", 70)}}
+	return &fatScen{Name: "groupspan", Cfg: cfg, Prefix: pre, Letters: l, Depth: depth, Oracle: oracle}
+}
+
 func ext4AllScens(oracle string, quick bool, depth int) []*fatScen {
 	var out []*fatScen
+	out = append(out, ext4GroupSpanScenario(oracle, 3))
 	for i, c := range ext4Configs(quick) {
 		out = append(out, ext4Scenarios(c, oracle, depth, quick)...)
 		if i == 0 || !quick {
